@@ -71,7 +71,16 @@ type progStore struct {
 	perCall []int // behaviour applied at each Append call
 }
 
-var errReject = errors.New("append rejected")
+// The rejection is an error as a network-backed store returns them: it says it is temporary
+// and a timeout (the net.Error conventions), and every other one arrives wrapped. None of
+// that is a reason to treat it differently: a failed append is reported once, not retried.
+type rejectErr struct{}
+
+func (rejectErr) Error() string   { return "append rejected" }
+func (rejectErr) Temporary() bool { return true }
+func (rejectErr) Timeout() bool   { return true }
+
+var errReject error = rejectErr{}
 
 func (s *progStore) Append(ctx context.Context, ev *eventbus.Event) (eventbus.Offset, error) {
 	b := ok
@@ -82,6 +91,9 @@ func (s *progStore) Append(ctx context.Context, ev *eventbus.Event) (eventbus.Of
 	s.perCall = append(s.perCall, b)
 	switch b {
 	case reject:
+		if s.calls%2 == 0 {
+			return "", fmt.Errorf("store: %w", errReject)
+		}
 		return "", errReject
 	case timeout:
 		vrt.Recv(ctx.Done()) // WithPersistenceTimeout(1ms): always expires (virtual time under the scheduler)
@@ -594,6 +606,7 @@ func durableCases() []dcase {
 
 func run(c *h.Check) {
 	runRealStores(c)
+	runDeadCases(c)
 	for _, sc := range concScenarios() {
 		c.Explore(sc, 2, 200000, false)
 	}
@@ -668,6 +681,14 @@ func replay(c *h.Check, rf *h.ReplayFile) []vrt.Violation {
 	var probe struct {
 		Durable *dcase    `json:"durable"`
 		Real    *realCase `json:"real"`
+		Dead    *deadCase `json:"dead"`
+	}
+	if json.Unmarshal(rf.Ops, &probe) == nil && probe.Dead != nil {
+		var vs []vrt.Violation
+		for _, m := range runDead(*probe.Dead) {
+			vs = append(vs, vrt.Violation{Kind: "persistence-failure", Sig: rf.Sig, Detail: m})
+		}
+		return vs
 	}
 	if json.Unmarshal(rf.Ops, &probe) == nil && probe.Real != nil {
 		var vs []vrt.Violation
